@@ -16,7 +16,7 @@ import (
 // outside of the rectangle (rect) or as the circle of radius 5 (circle).
 func c18PositiveRadii(c *core.Check) {
 	p := c.Prog
-	r := c.Rule("R18", "negative radii are invalid: in svg.rect.draw and svg.ellipse.draw the block of the first MoveTo is reached only when both results of radii() were decided positive by comparisons with zero (> 0, not <= 0, or not < 0 together with not == 0)", 2)
+	r := c.Rule("R18", "negative radii are invalid: in svg.rect.draw and svg.ellipse.draw the block of the first MoveTo is not reached when either result of radii() is negative or zero (replayed for both signs on each radius: the comparisons with zero get the truth that sign gives them)", 2)
 	for _, typ := range []string{"rect", "ellipse"} {
 		fn := p.Method("svg", typ, "draw")
 		if fn == nil {
@@ -65,37 +65,105 @@ func c18PositiveRadii(c *core.Check) {
 				}
 			}
 		}
-		positive := func(assign map[ssa.Value]bool) bool {
-			for _, rad := range radii {
-				gt, ge, ne := false, false, false
+		// replay: one radius negative, then zero, the other one free.  The comparisons made directly on the radius
+		// get the truth that sign gives them; comparisons on a clamped copy (`if rx < 0 { rx = 0 }`) are decided by
+		// the walk, which follows constants through merges
+		bad := ""
+		for _, rad := range radii {
+			for _, sign := range []float64{-1, 0} {
+				assign := map[ssa.Value]bool{}
 				for _, cm := range cmps {
 					if cm.radius != rad {
 						continue
 					}
-					t := assign[cm.atom]
+					var t bool
 					switch cm.op {
 					case token.GTR:
-						gt = gt || t
-					case token.LEQ:
-						gt = gt || !t
+						t = sign > 0
 					case token.GEQ:
-						ge = ge || t
+						t = sign >= 0
 					case token.LSS:
-						ge = ge || !t
-					case token.NEQ:
-						ne = ne || t
+						t = sign < 0
+					case token.LEQ:
+						t = sign <= 0
 					case token.EQL:
-						ne = ne || !t
+						t = sign == 0
+					case token.NEQ:
+						t = sign != 0
+					default:
+						continue
+					}
+					assign[cm.atom] = t
+				}
+				// comparisons on a merge of the radius with constants: when the sign gives the same answer on every
+				// edge, that is the answer
+				for _, a := range core.CondAtoms(fn) {
+					b, ok := a.(*ssa.BinOp)
+					if !ok {
+						continue
+					}
+					phi, ok := b.X.(*ssa.Phi)
+					if !ok {
+						continue
+					}
+					z, ok := core.ConstFloat(b.Y)
+					if !ok || z != 0 {
+						continue
+					}
+					truth := func(v float64) (bool, bool) {
+						switch b.Op {
+						case token.GTR:
+							return v > 0, true
+						case token.GEQ:
+							return v >= 0, true
+						case token.LSS:
+							return v < 0, true
+						case token.LEQ:
+							return v <= 0, true
+						case token.EQL:
+							return v == 0, true
+						case token.NEQ:
+							return v != 0, true
+						}
+						return false, false
+					}
+					var first, agree, seen = false, true, false
+					for _, e := range phi.Edges {
+						var v float64
+						if e == rad {
+							v = sign
+						} else if k, ok := core.ConstFloat(e); ok {
+							v = k
+						} else {
+							agree = false
+							break
+						}
+						t, ok := truth(v)
+						if !ok {
+							agree = false
+							break
+						}
+						if seen && t != first {
+							agree = false
+							break
+						}
+						first, seen = t, true
+					}
+					if agree && seen {
+						assign[a] = first
 					}
 				}
-				if !(gt || (ge && ne)) {
-					return false
+				if core.ForwardReach(fn.Blocks[0], assign, nil)[site] {
+					if sign < 0 {
+						bad = "negative"
+					} else {
+						bad = "zero"
+					}
 				}
 			}
-			return true
 		}
-		ok, _ := core.GuardedBy(fn, site, atoms, positive)
-		r.Cond(ok, key, p.Pos(fn.Pos()), "both radii are decided positive on every path to the outline", "a path reaches the outline on which a result of radii() was not decided positive: a negative radius (invalid) is drawn")
+		_ = atoms
+		r.Cond(bad == "", key, p.Pos(fn.Pos()), "the outline is not reached with a negative or a zero radius", "the outline is reached with a "+bad+" radius: a negative radius (invalid) is drawn")
 	}
 }
 
